@@ -330,7 +330,22 @@ func TestPropRenders(t *testing.T) {
 		var jobs []job
 		for k := range files {
 			for j := 0; j < tuples; j++ {
-				jobs = append(jobs, job{K: k, Args: ga.Draw(t, "args")})
+				a := ga.Draw(t, "args")
+				if j == 0 {
+					// one tuple per program with a value around the size of templ's write buffer
+					// (4096 bytes), where a single write is handled differently from small ones
+					unit := rapid.SampledFrom([]string{"x", "lorem & ipsum ", "é<"}).Draw(t, "bigunit")
+					size := rapid.SampledFrom([]int{4095, 4096, 4097, 5000, 9000, 20000}).Draw(t, "bigsize")
+					big := strings.Repeat(unit, size/len(unit)+1)[:size]
+					big = strings.ToValidUTF8(big, "")
+					if rapid.Bool().Draw(t, "bigS2") {
+						a.S2 = big
+					} else {
+						a.S1 = big
+					}
+					recRender.Class("argument of about one write buffer")
+				}
+				jobs = append(jobs, job{K: k, Args: a})
 			}
 		}
 		res, err := runBatch(files, jobs)
